@@ -37,7 +37,7 @@ TIERS = {
               "required_probes": ["c17.run_completed", "c17.barrier_event_mixed", "c17.reuse_log_then_identity",
                                   "c17.multilevel_run", "c17.pool_run", "c17.default_happened", "c17.default_mixed",
                                   "c17.stochastic_time_grid", "c17.shared_control_variates"]},
-    "thorough": {"worlds": 40000, "wall": 3300, "shrink_budget": 150,
+    "thorough": {"worlds": 200000, "wall": 3300, "shrink_budget": 150,
                  "required_probes": ["c17.run_completed", "c17.barrier_event_mixed", "c17.reuse_log_then_identity",
                                      "c17.multilevel_run", "c17.pool_run", "c17.default_happened",
                                      "c17.fine_coarse_events_differ"]},
